@@ -575,3 +575,108 @@ func TestSwitchHammer(t *testing.T) {
 		})
 	})
 }
+
+// TestListModeChurn: a small filter - a handful of ranges, never more than 256 Add calls in its life - stays a plain
+// list, and that is how most filters live. Many fresh filters per case; on each, one to three writers switch their own
+// short-prefix range (128.0.0.0/1, 64.0.0.0/2, 32.0.0.0/3, 16.0.0.0/4 or longer ones inside those) on and off while
+// readers look up addresses that no range ever covers - below 8.0.0.0, where every leading bit is zero, and at the top
+// of the address space - and addresses of ranges that are there for the whole life of the filter. Run with and without
+// the race detector: a slot that is updated word by word is no data race when the words are atomics.
+func TestListModeChurn(t *testing.T) {
+	rt.Check(t, 40, 6000, func(t *rapid.T) {
+		nw := rapid.IntRange(1, 3).Draw(t, "writers")
+		readers := rapid.IntRange(1, 4).Draw(t, "readers")
+		toggles := rapid.IntRange(5, 70).Draw(t, "togglesPerWriter") // x 3 writers + stable < 256 Add calls
+		sixteen := rapid.Bool().Draw(t, "sixteenByteProbes")
+		regions := []prefix{{128 << 24, 1}, {64 << 24, 2}, {32 << 24, 3}, {16 << 24, 4}}
+		owned := make([]prefix, nw)
+		for w := range owned {
+			r := regions[w]
+			ones := rapid.SampledFrom([]int{r.ones, r.ones, r.ones + 1, 8, 12, 16, 24, 31, 32}).Draw(t, "ones")
+			owned[w] = prefix{(r.net | uint32(rapid.IntRange(0, 1<<24-1).Draw(t, "low"))) & mask(ones), ones}
+			if owned[w].net&mask(r.ones) != r.net {
+				owned[w] = r
+			}
+		}
+		var stable []prefix
+		for i, n := 0, rapid.IntRange(1, 12).Draw(t, "stableRanges"); i < n; i++ {
+			ones := rapid.SampledFrom([]int{8, 9, 16, 24, 32}).Draw(t, "stableOnes")
+			stable = append(stable, prefix{(uint32(8+i)<<24 | uint32(rapid.IntRange(0, 1<<24-1).Draw(t, "stableLow"))) & mask(ones), ones}) // 8.x .. 15.x
+		}
+		nevers := []uint32{0, 1<<24 | 2<<16 | 3<<8 | 4, 5, 255, 7<<24 | 0xffffff, 3 << 24}
+		var lookups, filters int64
+		for trial := 0; trial < 25; trial++ {
+			f := netutil.NewIPv4Filter()
+			for _, p := range stable {
+				if err := f.Add(ipnet(p)); err != nil {
+					t.Fatalf("Add: %v", err)
+				}
+			}
+			var stop atomic.Bool
+			var bad atomic.Pointer[string]
+			var n atomic.Int64
+			start := make(chan struct{})
+			var rg, wg sync.WaitGroup
+			for r := 0; r < readers; r++ {
+				rg.Add(1)
+				go func(r int) {
+					defer rg.Done()
+					<-start
+					x := uint32(r*7919 + trial + 1)
+					for !stop.Load() && bad.Load() == nil {
+						x = x*1664525 + 1013904223
+						never := nevers[int(x>>9)%len(nevers)]
+						if x&0x100 != 0 {
+							never = x & 0x07ffffff // anything below 8.0.0.0
+						}
+						if f.Contains(ip(never, sixteen && x&1 == 0)) {
+							s := fmt.Sprintf("Contains(%v) = true while ranges elsewhere were being added and removed; no range covering it is ever added", ip(never, false))
+							bad.CompareAndSwap(nil, &s)
+						}
+						p := stable[int(x>>12)%len(stable)]
+						inside := p.net | (x & ^mask(p.ones))
+						if !f.Contains(ip(inside, sixteen && x&2 == 0)) {
+							s := fmt.Sprintf("Contains(%v) = false during updates of other ranges, although %v/%d is present for the whole life of the filter", ip(inside, false), ip(p.net, false), p.ones)
+							bad.CompareAndSwap(nil, &s)
+						}
+						n.Add(2)
+					}
+				}(r)
+			}
+			for w := 0; w < nw; w++ {
+				wg.Add(1)
+				go func(w int) {
+					defer wg.Done()
+					<-start
+					p := owned[w]
+					for k := 0; k < toggles && bad.Load() == nil; k++ {
+						f.Add(ipnet(p))
+						if !f.Contains(ip(p.net|uint32(k)&^mask(p.ones), false)) {
+							s := fmt.Sprintf("writer %d: Contains = false right after its own Add(%v/%d) returned", w, ip(p.net, false), p.ones)
+							bad.CompareAndSwap(nil, &s)
+						}
+						f.Remove(ipnet(p))
+						if f.Contains(ip(p.net|uint32(k)&^mask(p.ones), false)) {
+							s := fmt.Sprintf("writer %d: Contains = true right after its own Remove(%v/%d) returned", w, ip(p.net, false), p.ones)
+							bad.CompareAndSwap(nil, &s)
+						}
+					}
+				}(w)
+			}
+			close(start)
+			wg.Wait()
+			stop.Store(true)
+			rg.Wait()
+			if s := bad.Load(); s != nil {
+				t.Fatalf("%s\nfilter: %d stable ranges, %d writers toggling %v, %d readers (trial %d)", *s, len(stable), nw, owned, readers, trial)
+			}
+			lookups += n.Load()
+			filters++
+		}
+		ev.Label("list_mode_churn")
+		ev.LabelN("list_mode_lookups", lookups)
+		ev.Case(lookups > 0, ev.Hash("listchurn", fmt.Sprint(owned, stable, readers, toggles)), func() string {
+			return fmt.Sprintf("%d fresh list-mode filters: %d stable ranges, writers toggling %v x%d, %d readers, %d lookups", filters, len(stable), owned, toggles, readers, lookups)
+		})
+	})
+}
